@@ -111,6 +111,8 @@ impl Session {
     /// regex if it built. Patterns that fail to *parse* produce only a `note`.
     pub fn pattern(&mut self, pattern: &str, o: &Opts, with_facts: bool, with_prog: bool) -> BuiltPat {
         self.line(&format!("note\t{}", hex(pattern)), "ok");
+        // visible to the orchestrator if this process hangs or dies while working on the pattern
+        std::fs::write(format!("{}/current.txt", self.dir), pattern).ok();
         let casei = o.casei;
         let parsed = catch_unwind(|| hooks::parse_tree(pattern, casei));
         let tree = match parsed {
